@@ -10,7 +10,7 @@ func one(e ...core.Engine) func() []core.Engine { return func() []core.Engine { 
 
 var (
 	profC01 = sim.Profile{Name: "c01", Steps: 160, CanaryProb: 0.5, Hostile: 3, Churn: 3, Edits: 1.5, Holds: 0.3, Commands: 0.3, DupPods: 4, Affinity: -1, MaxNodes: 8, Converge: false}
-	profC04 = sim.Profile{Name: "c04", Steps: 140, CanaryProb: 1, Hostile: 1, Churn: 2, Edits: 2.5, Holds: 0.8, Commands: 1.5, DupPods: 0.5, Affinity: -1, MaxNodes: 8}
+	profC04 = sim.Profile{Name: "c04", CanarySteady: true, Converge: true, Steps: 140, CanaryProb: 1, Hostile: 1, Churn: 2, Edits: 2.5, Holds: 0.8, Commands: 1.5, DupPods: 0.5, Affinity: -1, MaxNodes: 8}
 	profC07 = sim.Profile{Name: "c07", EDSFaults: 0.2, Steps: 110, CanaryProb: 1, Hostile: 3, Churn: 0.7, Edits: 1.5, Holds: 0.5, Commands: 2, DupPods: 0.2, Affinity: -1, MaxNodes: 6, Converge: true, Retention: true}
 	profC08 = sim.Profile{Name: "c08", Steps: 120, CanaryProb: 0.5, Hostile: 1, Churn: 3, Edits: 1.5, Holds: 4, Commands: 3, DupPods: 0.3, Affinity: -1, MaxNodes: 7, Converge: true}
 	profC12 = sim.Profile{Name: "c12", Steps: 160, CanaryProb: 0.5, Hostile: 1, Churn: 1, Edits: 2, Holds: 0.5, Commands: 0.7, DupPods: 1, Affinity: -1, MaxNodes: 5, MultiEDS: true, OldDS: 0.3}
@@ -26,14 +26,20 @@ func nested(p sim.Profile, prob float64) sim.Profile {
 	return p
 }
 
+func eventDriven(p sim.Profile) sim.Profile {
+	p.Name += "-e"
+	p.EventDriven = true
+	return p
+}
+
 func registry() core.Registry {
 	return core.Registry{
 		"C01": one(&fn.C01{}, &sim.Sim{Prop: "C01", P: profC01, NQuick: 300, NThor: 6000, FloorsQ: map[string]int{}}, &sim.Sim{Prop: "C01", P: nested(profC01, 0.12), NQuick: 150, NThor: 3000, FloorsQ: map[string]int{}}),
-		"C02": one(&sim.Sim{Prop: "C02", P: profC02, NQuick: 200, NThor: 4000, FloorsQ: map[string]int{}}),
+		"C02": one(&sim.Sim{Prop: "C02", P: profC02, NQuick: 200, NThor: 4000, FloorsQ: map[string]int{}}, &sim.Sim{Prop: "C02", P: eventDriven(profC02), NQuick: 120, NThor: 2000, FloorsQ: map[string]int{}}),
 		"C03": one(&fn.C03{}),
 		"C04": one(&sim.Sim{Prop: "C04", P: profC04, NQuick: 250, NThor: 5000, FloorsQ: map[string]int{}}, &sim.Sim{Prop: "C04", P: nested(profC04, 0.12), NQuick: 150, NThor: 3000, FloorsQ: map[string]int{}}),
 		"C07": one(&sim.Sim{Prop: "C07", P: profC07, NQuick: 200, NThor: 3000, FloorsQ: map[string]int{}}),
-		"C08": one(&sim.Sim{Prop: "C08", P: profC08, NQuick: 250, NThor: 5000, FloorsQ: map[string]int{}}, &sim.Sim{Prop: "C08", P: nested(profC08, 0.12), NQuick: 150, NThor: 3000, FloorsQ: map[string]int{}}),
+		"C08": one(&sim.C08Script{}, &sim.Sim{Prop: "C08", P: profC08, NQuick: 250, NThor: 5000, FloorsQ: map[string]int{}}, &sim.Sim{Prop: "C08", P: nested(profC08, 0.12), NQuick: 150, NThor: 3000, FloorsQ: map[string]int{}}),
 		"C11": one(&sim.C11{}),
 		"C12": one(&sim.Sim{Prop: "C12", P: profC12, NQuick: 200, NThor: 3000, FloorsQ: map[string]int{}}, &sim.Sim{Prop: "C12", P: nested(profC12, 0.12), NQuick: 100, NThor: 2000, FloorsQ: map[string]int{}}),
 		"C13": one(&sim.Sim{Prop: "C13", P: profC13, NQuick: 200, NThor: 3000, FloorsQ: map[string]int{}}, &sim.Sim{Prop: "C13", P: nested(profC13, 0.12), NQuick: 100, NThor: 2000, FloorsQ: map[string]int{}}),
@@ -62,6 +68,12 @@ func crashIsViolation(prop string) bool {
 	return prop == "C16" || prop == "C17" || prop == "C11"
 }
 
+// usesRaceBuild: C17 always runs in the -race build; the thorough tier of C01, C04 and C12 runs
+// its simulations in the -race build too (the fan-out goroutines of real syncs are then under
+// the race detector during every history).
 func usesRaceBuild(prop, tier string) bool {
-	return prop == "C17"
+	if prop == "C17" {
+		return true
+	}
+	return tier == "thorough" && (prop == "C01" || prop == "C04" || prop == "C12")
 }
